@@ -19,7 +19,9 @@ RULE = ("Dedicated generator: random nests of modules, submodules, main programs
 MIN_NONTRIVIAL = 0.1
 ASSUMPTIONS = ["str(SymbolTable) lists the data symbols and used modules of a table"]
 
-INTR = {"sin": 1, "cos": 1, "abs": 1, "max": 2, "min": 2, "sum": 1, "size": 1, "mod": 2, "real": 1, "int": 1}
+# generic names and legacy specific names (a declaration shadows exactly the name it declares)
+INTR = {"sin": 1, "cos": 1, "abs": 1, "max": 2, "min": 2, "sum": 1, "size": 1, "mod": 2, "real": 1, "int": 1,
+        "iabs": 1, "dabs": 1, "dsqrt": 1, "float": 1, "amax1": 2, "min0": 2, "dsin": 1}
 ORD = ["aa", "bb", "cc"]
 TYPES = ["integer", "real", "logical", "real(kind = 8)", "double precision", "character(len = 4)", "complex"]
 
